@@ -185,7 +185,7 @@ def lattice_binding(ctx, helper):
         raise Inconclusive("h-dfa lattice failed: %s" % se[-2000:])
     text = open(out).read()
     obs = json.loads(text)
-    r = vlib.run_tlc(ctx, "LatticeObs", "LatticeObs.cfg", workers=2, timeout=1800,
+    r = vlib.run_tlc(ctx, "LatticeObs", "LatticeObs_quick.cfg" if ctx.quick else "LatticeObs.cfg", workers=2, timeout=1800,
                      extra_files={"lattice_obs.json": text}, extra_args=["-continue"])
     bad = violated_invariants(r)
     if r.violated and not bad:
@@ -341,8 +341,16 @@ def sparse_validate(ctx, helper, files, srcs, runs, negative=True):
         k = next(i for i, nd in enumerate(neg["nodes"]) if nd["kind"] == "phi") if base["phis"] else 0
         neg["observed"][0][k] = 6 if neg["observed"][0][k] != 6 else 0
         fns = fns + [neg]
+    tables = {}
+    for f in fns:
+        for nd in f["nodes"]:
+            if nd["kind"] == "table":
+                tables[(len(nd["ops"]), tuple(nd["table"]))] = True
+    tlist = [{"k": k, "table": list(t)} for (k, t) in sorted(tables)]
     r = vlib.run_tlc(ctx, "SparseObs", "SparseObs.cfg", workers=min(vlib.NCPU, 8), timeout=3600,
-                     extra_files={"sparse_obs.json": json.dumps({"fns": fns})}, extra_args=["-continue"])
+                     extra_files={"sparse_obs.json": json.dumps({"fns": fns, "tables": tlist})}, extra_args=["-continue"])
+    if "TablesMonotone" in violated_invariants(r):
+        raise Inconclusive("SparseObs: a tabulated toy transfer function is not monotone (harness problem)")
     if r.distinct < len(fns) + 1:
         raise Inconclusive("SparseObs: TLC visited %d states for %d functions:\n%s" % (r.distinct, len(fns), r.out[-2000:]))
     if r.violated and not r.cases:
@@ -401,13 +409,13 @@ def run(ctx):
 
     # 2. dense solver: model checking + replay of every emitted case through the real dense.Forward
     if ctx.quick:
-        dcfgs, nd = ["MCDataflow_dense_quick.cfg"], 2500
-        scfgs, ns = ["MCDataflow_sparse_quick.cfg"], 300
-        nfuncs, runs = 150, 12
+        dcfgs, nd = ["MCDataflow_dense_quick.cfg"], 1000
+        scfgs, ns = ["MCDataflow_sparse_quick.cfg"], 150
+        nfuncs, runs = 120, 12
     else:
-        dcfgs, nd = ["MCDataflow_dense_quick.cfg", "MCDataflow_dense_n3.cfg", "MCDataflow_dense_c3all.cfg"], 40000
-        scfgs, ns = ["MCDataflow_sparse_quick.cfg", "MCDataflow_sparse_n3.cfg"], 3000
-        nfuncs, runs = 1500, 25
+        dcfgs, nd = ["MCDataflow_dense_all4.cfg", "MCDataflow_dense_n3.cfg", "MCDataflow_dense_c3all.cfg"], 20000
+        scfgs, ns = ["MCDataflow_sparse_all.cfg"], 3000
+        nfuncs, runs = 1000, 25
     cases, dstates, dgen, dwalls, dsum, nmism = dense_model_and_replay(ctx, helper, dcfgs, nd)
 
     # 3. sparse solver: model checking of every pop order
@@ -443,5 +451,5 @@ def run(ctx):
     ctx.assumptions = [
         "entry facts apply to blocks without predecessors (documented contract of dense.Forward); Edge(from,to) is one fact per (from,to)",
         "sparse: a transfer function maps only its own instruction's value and reads only its operands' states",
-        "bounds: exhaustive graphs <= 2 nodes x 4 lattices (quick) / <= 3 nodes chain2 and <= 2 nodes chain3 with all monotone functions (thorough); larger cases are seeded samples",
+        "bounds: exhaustive edge relations over <= 2 nodes (quick: chain2, nil5; thorough: all four lattices, and chain3 with all monotone functions) and <= 3 nodes (thorough, chain2, identity/gen); graphs with 3-5 nodes, parallel edges and arbitrary monotone tables are seeded samples",
     ]
